@@ -908,7 +908,9 @@ func (u *Unit) callSiteClauses(st *State, fr *Frame, calleeName string, args []V
 		for i, a := range args {
 			env.vars[fmt.Sprintf("$arg%d", i)] = a
 		}
+		u.goalEval = true
 		t, err := u.evalBool(st, env, cs.Clause.Expr)
+		u.goalEval = false
 		if err != nil {
 			u.fail(fmt.Sprintf("%s: callsite clause %q: %v", cs.Clause.Where, cs.Clause.Src, err))
 			continue
